@@ -144,6 +144,25 @@ pub(crate) fn sample_request_as_json() -> String {
     .unwrap()
 }
 
+/// If `offset..end_offset` is not a region of `input` that we can
+/// parse, return the response describing the problem.
+fn invalid_span_response(input: &str, offset: usize, end_offset: usize) -> Option<Response> {
+    if end_offset <= input.len() && input.is_char_boundary(offset) {
+        return None;
+    }
+
+    Some(Response {
+        kind: ResponseKind::MalformedRequest {
+            message: format!(
+                "Invalid request: offset {offset} and end_offset {end_offset} are not a region of the input, which is {} bytes long.",
+                input.len()
+            ),
+        },
+        position: None,
+        id: None,
+    })
+}
+
 fn handle_load_request(
     id: Option<usize>,
     path: &Path,
@@ -152,6 +171,10 @@ fn handle_load_request(
     end_offset: usize,
     env: &mut Env,
 ) -> Response {
+    if let Some(response) = invalid_span_response(input, offset, end_offset) {
+        return response;
+    }
+
     let abs_path = to_abs_path(path);
 
     let vfs_path = env.vfs.insert(Rc::new(abs_path.clone()), input.to_owned());
@@ -673,14 +696,15 @@ fn handle_run_eval_request(
         }
     };
 
+    let offset = offset.unwrap_or(0);
+    let end_offset = end_offset.unwrap_or(input.len());
+    if let Some(response) = invalid_span_response(input, offset, end_offset) {
+        return response;
+    }
+
     let vfs_path = env.vfs.insert(Rc::new(path.clone()), input.to_owned());
-    let (items, errors) = parse_toplevel_items_from_span(
-        &vfs_path,
-        input,
-        &mut env.id_gen,
-        offset.unwrap_or(0),
-        end_offset.unwrap_or(input.len()),
-    );
+    let (items, errors) =
+        parse_toplevel_items_from_span(&vfs_path, input, &mut env.id_gen, offset, end_offset);
 
     if !errors.is_empty() {
         return as_error_response(errors, &env.vfs, &env.project_root);
